@@ -25,7 +25,16 @@ fn ts_uid(ts: &str) -> &'static str {
         "ivrle" => uids::IMPLICIT_VR_LITTLE_ENDIAN,
         "evrle" => uids::EXPLICIT_VR_LITTLE_ENDIAN,
         "evrbe" => uids::EXPLICIT_VR_BIG_ENDIAN,
+        "encaps" => "1.2.840.10008.1.2.1.98",
         _ => panic!("ts {ts}"),
+    }
+}
+fn other_ts(ts: &str) -> &'static str {
+    match ts {
+        "ivrle" => "evrle",
+        // same data set encoding, different transfer syntax UID (Encapsulated Uncompressed Explicit VR LE)
+        "evrle" => "encaps",
+        _ => "ivrle",
     }
 }
 fn ts_short(uid: &str) -> String {
@@ -34,6 +43,7 @@ fn ts_short(uid: &str) -> String {
         x if x == uids::IMPLICIT_VR_LITTLE_ENDIAN => "ivrle".into(),
         x if x == uids::EXPLICIT_VR_LITTLE_ENDIAN => "evrle".into(),
         x if x == uids::EXPLICIT_VR_BIG_ENDIAN => "evrbe".into(),
+        "1.2.840.10008.1.2.1.98" => "encaps".into(),
         x => x.to_string(),
     }
 }
@@ -132,6 +142,8 @@ struct SentDs {
     /// the whole data set as sent (in the negotiated transfer syntax): a stored file holds this
     /// request's data set iff its data set re-encodes to exactly these bytes
     evrle: Vec<u8>,
+    /// transfer syntax (uid) of the presentation context the request was sent on
+    tsu: String,
     /// byte length of the first three elements in the transfer syntax used (an element boundary)
     head_len: usize,
 }
@@ -170,6 +182,7 @@ fn make_ds(inst: &str, pid: &str, seed: u64, tsu: &str) -> (InMemDicomObject, Se
         pid: pid.to_string(),
         pixels: px,
         evrle: encode(&obj, tsu),
+        tsu: tsu.to_string(),
         head_len: encode(&head, tsu).len(),
     };
     (obj, sd)
@@ -226,6 +239,8 @@ fn main() {
             let assoc = ClientAssociationOptions::new()
                 .calling_ae_title("VERIF-SCU")
                 .with_presentation_context(uids::SECONDARY_CAPTURE_IMAGE_STORAGE, vec![ts_uid(ts)])
+                // a second storage context with another transfer syntax: every second request goes there
+                .with_presentation_context(uids::SECONDARY_CAPTURE_IMAGE_STORAGE, vec![ts_uid(other_ts(ts))])
                 .with_presentation_context(uids::VERIFICATION, vec![uids::IMPLICIT_VR_LITTLE_ENDIAN])
                 .read_timeout(Duration::from_secs(10))
                 .establish(("127.0.0.1", scp.port));
@@ -240,14 +255,22 @@ fn main() {
             let pcs = assoc.presentation_contexts().to_vec();
             let pc_store = pcs.iter().find(|p| ts_short(&p.transfer_syntax) == ts).map(|p| p.id);
             let pc_echo = pcs.iter().map(|p| p.id).max().unwrap_or(1);
-            let Some(pc) = pc_store else {
+            let Some(pc1) = pc_store else {
                 assoc_failed += 1;
                 let _ = assoc.abort();
                 continue;
             };
+            let ts2 = other_ts(ts);
+            let pc2 = pcs
+                .iter()
+                .find(|p| p.id != pc1 && p.abstract_syntax == uids::SECONDARY_CAPTURE_IMAGE_STORAGE && ts_short(&p.transfer_syntax) == ts2)
+                .map(|p| p.id)
+                .unwrap_or(pc1);
+            // context and transfer syntax of the request being sent
+            let mut pc = pc1;
+            let mut cur_ts: &str = ts;
             tr.emit(&json!({"ev":"assoc","mode":mode,"ts":ts}));
             let max = assoc.acceptor_max_pdu_length() as usize;
-            let tsx = TransferSyntaxRegistry.get(ts_uid(ts)).unwrap();
             // pending data fragments of the current request
             let mut frags: Vec<Vec<u8>> = Vec::new();
             let mut msgid: u16 = 0;
@@ -279,7 +302,16 @@ fn main() {
                             }
                         }
                         let inst = format!("1.2.826.0.1.3680043.9.{}.{}", 7000 + mi, counter);
-                        let (obj, sd) = make_ds(&inst, &format!("P{counter}"), counter, ts_uid(ts));
+                        // requests alternate between the two storage contexts
+                        if sent.len() % 2 == 1 && pc2 != pc1 {
+                            pc = pc2;
+                            cur_ts = ts2;
+                        } else {
+                            pc = pc1;
+                            cur_ts = ts;
+                        }
+                        let tsx = TransferSyntaxRegistry.get(ts_uid(cur_ts)).unwrap();
+                        let (obj, sd) = make_ds(&inst, &format!("P{counter}"), counter, ts_uid(cur_ts));
                         let mut bytes = Vec::new();
                         obj.write_dataset_with_ts(&mut bytes, tsx).expect("encode ds");
                         // number of fragments = 1 + number of "part" ops before "last"
@@ -319,7 +351,7 @@ fn main() {
                             dead = true;
                         }
                         sent.push(sd);
-                        tr.emit(&json!({"ev":"store","req":sent.len(),"cls":sent.last().unwrap().cls,"inst":sent.last().unwrap().inst,
+                        tr.emit(&json!({"ev":"store","req":sent.len(),"ts":cur_ts,"cls":sent.last().unwrap().cls,"inst":sent.last().unwrap().inst,
                             "uid_atoms": atoms, "uid_text_len": text.len(), "fragments": nfr}));
                     }
                     "part" | "last" => {
@@ -418,8 +450,8 @@ fn main() {
                     let inst = fo.element(tags::SOP_INSTANCE_UID).ok().and_then(|e| e.to_str().ok().map(|s| s.trim_end_matches(['\0', ' ']).to_string()));
                     let pid = fo.element(tags::PATIENT_ID).ok().and_then(|e| e.to_str().ok().map(|s| s.trim_end().to_string()));
                     let px = fo.element(tags::PIXEL_DATA).ok().and_then(|e| e.to_bytes().ok().map(|b| b.to_vec()));
-                    let whole = catch(|| encode(&fo, ts_uid(ts))).unwrap_or_default();
                     for (k, s) in sent.iter().enumerate() {
+                        let whole = catch(|| encode(&fo, &s.tsu)).unwrap_or_default();
                         if Some(&s.inst) == inst.as_ref() && Some(&s.pid) == pid.as_ref() && px.as_deref() == Some(&s.pixels[..])
                             && whole == s.evrle
                         {
